@@ -111,7 +111,8 @@ AddTieUnknown ==               \* a name that is not a parameter: ValueError
    /\ UNCHANGED <<assign, naming, phase, pos, par, siteParam>>
 
 Next == \/ Visit \/ Finish
-        \/ \E I \in SUBSET (1..Len(par)) : AddTie(I) \/ AddTieRejected(I)
+        \/ \E I \in SUBSET Sites : AddTie(I)           \* constant bound: TLC labels each
+        \/ \E I \in SUBSET Sites : AddTieRejected(I)   \* edge with the action and its argument
         \/ AddTieUnknown
 
 Spec == Init /\ [][Next]_vars
